@@ -89,12 +89,15 @@ MORE['C11'] = dict(
     ref='7 C11', note=ALG_NOTE if 'ALG_NOTE' in globals() else '')
 
 MORE['C13'] = dict(
-    technique='Lean 4 theorems about a crash model of the poll loop (any number of kills between any two durable writes; invariant by induction over crash schedules) with the write order regenerated from the source + crash injection at every durable effect of real ceremonies (crashdiff)',
+    technique='Lean 4 theorems about a crash model of the poll loop (any number of kills between any two durable writes; invariant by induction over crash schedules; its hypothesis on the handler proved for the node model) with the write order regenerated from the source + crash injection at every durable effect of real ceremonies (crashdiff)',
     text=("Proof, partial. lean/Dc4bcVerif/Props/C13.lean over Model/Crash.lean: crash_safe (for every handler that refuses or idempotently repeats an already applied message, every log, every initial store and EVERY "
           "crash schedule, what is on disk is a crash-free store of some prefix of the log, possibly with the next message partially applied: operation, then state, then offset), crash_safe_final (once the node has worked through "
           "the log the store is the crash-free one: no message applied twice in effect, no operation lost), old_order_loses_operation (the pinned tree's order state-then-operation loses the operation after one kill: explicit schedule), "
           "order_in_source / answer_order_in_source (kernel-evaluated over the call order the translator reads off node_service.go on this run: placeholders < storeOperation < SaveFSM, broadcast < SaveFSM, SaveOffset after ProcessMessage, "
-          "Send and SaveFSM before DeleteOperation). Assumed, not proved: ReapplySafe of the real handler, atomic single writes, the re-initialisation handler (a kill inside reinitDKG is not covered). Tie: crashdiff kills a real node before each of its "
+          "Send and SaveFSM before DeleteOperation). The hypothesis of crash_safe is PROVED for the model's node handler, for every node state, message and pair of clock readings, with no reachability assumption: "
+          "C13Fsm.fsm_reapply / instance_reapply (every event a round machine accepted it refuses, with an error, when applied again to its result), C13Node/C13Start.node_reapply (a handled message, handled again, is rejected or accepted without any change "
+          "and without a new operation — hand-overs, the restart after a collected batch, lazily restarted cancelled batches and the start of a batch included), saveSignatures_idem (the signature store, as a list, is unchanged by saving the same "
+          "signatures again), node_reapplySafe, node_crash_safe(_final). Assumed, not proved: atomic single writes, the re-initialisation handler (a kill inside reinitDKG is not covered). Tie: crashdiff kills a real node before each of its "
           "durable effects (exhaustive in the thorough tier: every effect of a (2,2) and a (3,2) ceremony, plus multi-kill runs), restarts it with the real constructors and requires: key generation and a later batch complete on every node, "
           "the restarted node agrees with a node that never crashed, no operation is left over or missing; nodediff ties the node model (duplicate deliveries included)."),
     ref='7 C13', note=NODE_NOTE)
